@@ -355,7 +355,12 @@ func (o *Operator) handleCheckpointBarrier(ctx context.Context, senderID string,
 	}
 
 	if o.checkpoint.hasAllBarriers() {
-		o.processEventBatch(ctx, batching.CurrentBatch) // Must flush any pending events before checkpointing
+		// Must flush any pending events before checkpointing. A failed flush has
+		// dropped events whose senders were already told they are in: the
+		// checkpoint must not be taken (and reported) without them.
+		if err := o.processEventBatch(ctx, batching.CurrentBatch); err != nil {
+			return fmt.Errorf("flushing pending events before checkpoint %d: %w", o.checkpoint.checkpointID, err)
+		}
 		cp, err := o.db.Checkpoint(o.checkpoint.checkpointID)()
 		if err != nil {
 			return err
